@@ -202,6 +202,50 @@ pub fn one_c15(prop: &str, c: &Case, rep: &mut Report) {
             return;
         }
     };
+    // interleaved objects: deriving the faces of a cell must not depend on what was done to ANOTHER cell before (scratch
+    // buffers or cached face lists kept between calls): for every third input a second, unrelated tessellation with the same
+    // number of generators in the same box is built, and between `discard_faces()` of its cell i and nothing else, the faces of
+    // cell i of this input are derived - they must be those derived without the interleaving (bitwise)
+    if c.hash() % 3 == 1 && c.n() >= 2 {
+        let mut other = c.clone();
+        let mut r = Rng::stream("C15interleave", &[c.hash()]);
+        let (a, w) = (c.anchor, c.width);
+        other.pts = (0..c.n()).map(|_| a + w * DVec3::new(r.f(), r.f(), r.f())).collect();
+        other.mask = None;
+        other.dedup();
+        if other.n() == c.n() && other.validity().is_ok() {
+            let res = guarded(|| {
+                let vo = build_integrator(&other);
+                let mut bad: Option<usize> = None;
+                let mut n = 0u64;
+                for i in 0..c.n() {
+                    let (Some(mine), Some(theirs), Some(want)) = (vi.get_cell_at(i), vo.get_cell_at(i), vf.get_cell_at(i)) else { continue };
+                    // other cell: with faces, then discarded (whatever it leaves behind belongs to ANOTHER cell with the same index)
+                    let _ = theirs.clone().with_faces().discard_faces();
+                    let got = mine.clone().with_faces();
+                    n += 1;
+                    let same = got.face_count() == want.face_count() && (0..want.face_count()).all(|f| got.face_vertices(f) == want.face_vertices(f) && got.neighbour(f) == want.neighbour(f) && got.shift(f) == want.shift(f));
+                    if !same && bad.is_none() {
+                        bad = Some(i);
+                    }
+                    // and the other way round
+                    let _ = mine.clone().with_faces().discard_faces();
+                    let fresh_other = theirs.clone().with_faces();
+                    let _ = fresh_other.face_count();
+                }
+                (bad, n)
+            });
+            match res {
+                Err(p) => rep.violations.push(panic_violation(prop, c, &p)),
+                Ok((bad, n)) => {
+                    rep.count("interleaved_face_derivations_compared", n);
+                    if let Some(i) = bad {
+                        rep.violations.push(Violation::new(prop, "c15.faces_depend_on_other_cell", format!("cell {i}: with_faces() right after with_faces().discard_faces() of cell {i} of ANOTHER tessellation gives other faces than with_faces() alone"), Some(c), json!({"cell": i})));
+                    }
+                }
+            }
+        }
+    }
     let mut any = false;
     for i in 0..c.n() {
         let (Some(plain), Some(cell)) = (vi.get_cell_at(i), vf.get_cell_at(i)) else {
@@ -384,6 +428,22 @@ pub fn one_c18(prop: &str, c: &Case, rep: &mut Report) {
             }
             let hs = HalfSpace::new(dx / dist, 0.5 * (g + h), Some(*j), *shift);
             let before = cell.clone();
+            // interleaving: now and then another cell is created (and clipped once) on this thread between two clips of the
+            // replayed one - scratch state of the clip primitive must belong to the cell, not to the thread
+            if step % 3 == 1 && n >= 2 {
+                // (a stream of its own: the permutations of the variants below stay those of the earlier sessions, which the
+                // witnesses findings/F5-C18-*.json depend on)
+                let o = (i + 1 + Rng::stream("C18other", &[c.hash(), step as u64]).below(n - 1)) % n;
+                let _ = guarded(|| {
+                    let mut other = cb.init_cell(o);
+                    let go = cb.generator_loc(o);
+                    let d = go - g;
+                    if d.length() > 0. {
+                        cb.clip(&mut other, HalfSpace::new(d / d.length(), 0.5 * (g + go), Some(i), None));
+                    }
+                });
+                rep.count("other_cells_created_between_clips", 1);
+            }
             if let Err(p) = guarded(|| cb.clip(&mut cell, hs.clone())) {
                 rep.violations.push(panic_violation(prop, c, &p));
                 break;
